@@ -24,18 +24,28 @@ def ready_err_expected(ms, e0):
     return e0
 
 
-def why_svc(case, impl, model, w0=0, tree=None, obs=None):
+def count_ready(evs, polled):
+    for e in evs:
+        m = re.match(r"r(\d+)@", e)
+        if m and m.group(1) in polled:
+            polled[m.group(1)] += 1
+
+
+def why_svc(case, impl, model):
     """the C12 predicates on the implementation trace of a service case ('' = holds)"""
-    if obs is None:
-        obs = base.parse_trace(impl)
+    obs = base.parse_trace(impl)
     if obs is None:
         return "crash"
-    if tree is None:
-        tree = base.sx_parse(base.split_case(case)[0])
-    leaves = base.svc_leaves(tree)
+    tree = base.sx_parse(base.split_case(case)[0])
+    return check_obs(base.svc_leaves(tree), obs, 0, None)
+
+
+def check_obs(leaves, obs, w0, polled0):
     scripts = {i: base.rs_list(s) for i, s, _ in leaves}
     mappers = {i: m for i, _, m in leaves}
     polled = {i: 0 for i in scripts}
+    if polled0:
+        polled.update(polled0)
     w = w0
     for kind, evs, res in obs:
         if kind == "R":
@@ -117,6 +127,55 @@ def why_svc(case, impl, model, w0=0, tree=None, obs=None):
     return ""
 
 
+def why_fac(case, impl, model):
+    """C12 on a factory case: the polls of the factory future, then the ops on the built service"""
+    obs = base.parse_trace(impl)
+    if obs is None or not obs or obs[0][0] != "N":
+        return "crash"
+    tree = base.sx_parse(base.split_case(case)[0])
+    leaves = base.fac_leaves(tree)
+    _, evs, res = obs[0]
+    r, _, np = res.partition("/")
+    try:
+        np = int(np)
+    except ValueError:
+        return "shape"
+    if r == "X":
+        return "factory-panic"
+    if r == "P":
+        return "factory-stuck"
+    if any(e[0] in "xy" for e in evs):
+        return "factory-repoll"
+    pend = set()
+    order = []
+    for e in evs:
+        m = re.match(r"[ir](\d+)@(\S+):(\S+)$", e)
+        if m:
+            ww = m.group(2)
+            if not ww.isdigit() or not (0 <= int(ww) < np):
+                return "factory-waker"
+            if order and int(ww) < order[-1]:
+                return "factory-waker"
+            order.append(int(ww))
+            if m.group(3) == "p":
+                pend.add(int(ww))
+    for k in range(np - 1):
+        # this poll returned Pending: some inner future / readiness must have answered Pending to its waker
+        if k not in pend:
+            return "factory-pending-only-if"
+    # every leaf factory at most once
+    news = [e for e in evs if e[0] == "n"]
+    if len(news) != len(set(re.match(r"n(\d+)", e).group(1) for e in news)):
+        return "factory-twice"
+    polled = {i: 0 for i, _, _ in leaves}
+    count_ready(evs, polled)
+    return check_obs(leaves, obs[1:], np, polled)
+
+
+def monitor_fac(case, impl, model):
+    return why_fac(case, impl, model) == ""
+
+
 def monitor_svc(case, impl, model):
     return why_svc(case, impl, model) == ""
 
@@ -134,4 +193,10 @@ def streams(ctx):
     s1 = Stream("svc12", "svc", cases, monitor=monitor_svc, nontrivial=nontrivial, shrink=base.shrink_svc,
                 compare=base.compare, finding_key=lambda c, i, m: why_svc(c, i, m),
                 describe="%d structured + %d random service trees, readiness-heavy ops" % (len(ex), n))
-    return [s1]
+    nf = 6000 if ctx.tier == "quick" else 150000
+    exf = base.exhaustive_fac_small()
+    fcases = exf + [base.gen_fac_case(ctx.rng, True) for _ in range(nf)]
+    s2 = Stream("fac12", "fac", fcases, monitor=monitor_fac, nontrivial=base.nontrivial_fac, shrink=base.shrink_fac,
+                compare=base.compare, finding_key=lambda c, i, m: why_fac(c, i, m),
+                describe="%d structured + %d random factory trees, then readiness-heavy ops" % (len(exf), nf))
+    return [s1, s2]
